@@ -29,7 +29,11 @@ RULE = ("(fft size in {2,4,6,7,8,12,16,32,64,128,256,1024,2048} incl. odd "
         "non-trivial = more than one subcarrier pair or a multi-tap channel.  "
         "Tap profiles include echoes 31-60 dB below the strongest tap; a third "
         "of the round trips follow a refused set_parameters call; received "
-        "buffers are demodulated twice and their values compared before/after. ")
+        "buffers are demodulated twice and their values compared before/after.  "
+        "The channel-1x1 generator repeats the equalisation law over channels "
+        "created through the antenna-aware interface (TdlMimoChannel 1x1, "
+        "SuMimoChannel, SuChannel with a path loss of 0..60 dB) in either link "
+        "direction. ")
 ASSUMPTIONS = ["a time-invariant channel is a Jakes generator with zero Doppler",
                "cases with min|H| < 1e-6 max|H| over the used subcarriers are "
                "tallied as ill-conditioned (the equaliser divides by H)",
@@ -368,6 +372,95 @@ def case_channel(ctx, rng, idx):
         ctx.sample("channel", {k2: v for k2, v in tag.items()})
 
 
+def case_channel_1x1(ctx, rng, idx):
+    """The same law over a channel created through the antenna-aware interface
+    (one transmit, one receive antenna), used in either link direction, and
+    through the single-user wrapper with a path loss."""
+    fft = FFTS[idx % 9]
+    c = rng.random()
+    cp = fft if c < 0.25 else int(rng.integers(0, fft + 1))
+    maxused = fft - (fft % 2)
+    used = maxused if rng.random() < 0.4 else 2 * int(rng.integers(1, maxused // 2 + 1))
+    delays, powers, mem, mclass = gen_taps(rng, cp, fft)
+    Ts = float(10.0 ** rng.uniform(-8, -4))
+    kind = ["tdl-mimo", "tdl-mimo:switched", "su-mimo", "su-mimo:switched", "su-siso"][idx % 5]
+    pl = None
+    tag = {"fft": fft, "cp": cp, "used": used, "delays": delays, "powers_dB": powers,
+           "memory": mem, "memory_class": mclass, "channel": kind}
+    o = OF.OFDM(fft, cp, used)
+    rs = np.random.RandomState(int(rng.integers(0, 2 ** 31)))
+    if kind.startswith("tdl-mimo"):
+        gen = FG.JakesSampleGenerator(0.0, Ts, int(rng.integers(1, 10)), shape=(1, 1), RS=rs)
+        okc, ch = ctx.call("equalised-equals-input", FA.TdlMimoChannel, gen, None, powers,
+                           delays * Ts, Ts, cls="channel-constructor", detail=tag)
+    else:
+        from pyphysim.channels import singleuser as SU
+        gen = FG.JakesSampleGenerator(0.0, Ts, int(rng.integers(1, 10)), RS=rs)
+        if kind == "su-siso":
+            okc, ch = ctx.call("equalised-equals-input", SU.SuChannel, gen, None, powers,
+                               delays * Ts, Ts, cls="channel-constructor", detail=tag)
+        else:
+            okc, ch = ctx.call("equalised-equals-input", SU.SuMimoChannel, 1, gen, None, powers,
+                               delays * Ts, Ts, cls="channel-constructor", detail=tag)
+        if okc and rng.random() < 0.6:
+            pl = float(10.0 ** rng.uniform(-6, 0))
+            ch.set_pathloss(pl)
+            tag["pathloss"] = pl
+    if not okc:
+        return
+    if kind.endswith(":switched"):
+        ch.switched_direction = True
+    n = int(rng.integers(1, 3 * used + 1))
+    x = rand_c(rng, n)
+    y = np.asarray(o.modulate(x))
+    okc, r = ctx.call("equalised-equals-input", ch.corrupt_data, y, cls="corrupt_data", detail=tag)
+    if not okc:
+        return
+    r = np.asarray(r)
+    if r.ndim == 2 and r.shape[0] == 1:
+        r = r[0]
+    memory = int(ch.num_taps_with_padding) - 1
+    ctx.ev("equalised-equals-input", memory <= cp and r.shape == (y.size + memory,),
+           cls="memory-within-cp:" + kind, detail={**tag, "channel_memory": memory, "out": r.shape})
+    if memory > cp or r.shape != (y.size + memory,):
+        return
+    resp = ch.get_last_impulse_response()
+    okc, dem = ctx.call("equalised-equals-input", o.demodulate, r[:y.size].copy(),
+                        cls="demodulate", detail=tag)
+    if not okc:
+        return
+    eq = OF.OfdmOneTapEqualizer(o)
+    okc, out = ctx.call("equalised-equals-input", eq.equalize_data, np.asarray(dem), resp,
+                        cls="equalize_data:" + kind, detail=tag)
+    if not okc:
+        return
+    out = np.asarray(out).ravel()
+    sp = np.asarray(resp.tap_values_sparse)
+    sp = sp.reshape(sp.shape[0], -1, sp.shape[-1])[:, 0, 0]
+    ti = np.asarray(resp.tap_indexes_sparse).astype(int)
+    k = np.arange(fft)
+    H = np.zeros(fft, dtype=complex)
+    for v, dl in zip(sp, ti):
+        H += v * np.exp(-2j * np.pi * k * dl / fft)
+    usedbins = np.array(sorted(expected_used_bins(fft, used)))
+    Hu = H[usedbins]
+    if np.min(np.abs(Hu)) < 1e-6 * np.max(np.abs(Hu)):
+        ctx.tally("ill-conditioned-channel")
+        return
+    kappa = float(np.max(np.abs(H)) / np.min(np.abs(Hu)))
+    xm = float(np.max(np.abs(x))) + 1e-300
+    ctx.ev("equalised-equals-input", out.size >= n, cls="output-length",
+           detail={**tag, "got": out.shape, "n": n})
+    if out.size < n:
+        return
+    ctx.within("equalised-equals-input", float(np.max(np.abs(out[:n] - x))),
+               512 * EPS * fft * kappa * xm, kind + (":pathloss" if pl is not None else ""),
+               {**tag, "kappa": kappa, "n": n})
+    ctx.sig("ch1x1", kind, pl is not None, fft, cls3(cp, 0, fft), mclass, len(delays) > 1)
+    if idx % 40 == 0:
+        ctx.sample("channel-1x1", dict(tag))
+
+
 def classify(w):
     return None
 
@@ -375,6 +468,7 @@ def classify(w):
 GENS = {
     "roundtrip": Gen(case_roundtrip, 5200, 1000000),
     "channel": Gen(case_channel, 3300, 600000),
+    "channel-1x1": Gen(case_channel_1x1, 600, 100000),
     "reject": Gen(case_reject, 28, 280),
 }
 MIN_EVALS = {"round-trip": 4000, "emitted-length": 2000, "prefix-is-copy-of-tail": 2000,
